@@ -74,11 +74,25 @@ func c19StrRenamed(a, b, old, new string) bool {
 		return false
 	}
 	for i := range ta {
-		if ta[i] != tb[i] && !(ta[i] == old && tb[i] == new) {
+		if ta[i] != tb[i] && !(ta[i] == old && tb[i] == new) && !c19PairRenamed(ta[i], tb[i]) {
 			return false
 		}
 	}
 	return true
+}
+
+// further old -> new identifier pairs in force (combined edits; a chain
+// X -> Y, Y -> Z counts as X -> Z)
+var c19Pairs [][2]string
+
+func c19PairRenamed(a, b string) bool {
+	cur := map[string]bool{a: true}
+	for _, p := range c19Pairs {
+		if cur[p[0]] {
+			cur[p[1]] = true
+		}
+	}
+	return cur[b]
 }
 
 // c19SameRenamed: b is a up to old -> new in strings and object keys.
@@ -315,6 +329,103 @@ func c19WildSupplied(c *syntax.CallStm) (ref *syntax.RefExp, ids map[string]bool
 	return ref, ids
 }
 
+// c19StaleKey: a later part of a combined request renames an identifier
+// (pipeline name, call id, binding id) that an edit produced by an earlier
+// part uses as its lookup key when the edits are replayed on the files.
+// The Edit objects keep pointers into the compiled Asts, which Refactor
+// mutates while it goes along, so the earlier edit no longer finds its target.
+func c19StaleKey(ast *syntax.Ast, e c19Edit) bool {
+	if e.Kind != "combo" {
+		return false
+	}
+	callsTo := func(p *syntax.Pipeline, dec string) bool {
+		for _, c := range p.Calls {
+			if c.DecId == dec {
+				return true
+			}
+		}
+		return false
+	}
+	for i, r1 := range e.Subs {
+		if r1.Kind == "rename_in" {
+			// the input rename rewrote self.p inside the return binding whose id
+			// the output rename changes
+			for _, r2 := range e.Subs[i+1:] {
+				if r2.Kind != "rename_out" || r2.Callable != r1.Callable {
+					continue
+				}
+				for _, p := range ast.Pipelines {
+					if p.Id != e.original(r1.Callable) || p.Ret == nil || p.Ret.Bindings == nil {
+						continue
+					}
+					for _, b := range p.Ret.Bindings.List {
+						if b.Id != r2.Param || b.Exp == nil {
+							continue
+						}
+						refs := b.Exp.FindRefs()
+						if r, ok := b.Exp.(*syntax.RefExp); ok {
+							refs = append(refs, r)
+						}
+						for _, r := range refs {
+							if r.Kind == syntax.KindSelf && r.Id == r1.Param {
+								return true
+							}
+						}
+					}
+				}
+			}
+		}
+		if r1.Kind != "rename" {
+			continue
+		}
+		a := r1.Callable
+		for _, r2 := range e.Subs[i+1:] {
+			switch r2.Kind {
+			case "rename":
+				// the second rename changes the name of a pipeline the first one
+				// edited, or the id of a call next to one the first one edited
+				b := r2.Callable
+				for _, p := range ast.Pipelines {
+					if callsTo(p, a) && (p.Id == b || callsTo(p, b)) {
+						return true
+					}
+				}
+			case "rename_in":
+				// the first rename rewrote a reference inside the binding the
+				// second one renames
+				if e.original(r2.Callable) != a {
+					continue
+				}
+				for _, p := range ast.Pipelines {
+					for _, c := range p.Calls {
+						if c.DecId != a || c.Bindings == nil {
+							continue
+						}
+						for _, b := range c.Bindings.List {
+							if b.Id == r2.Param && b.Exp != nil && c19ExpRefsCall(b.Exp, a) {
+								return true
+							}
+						}
+					}
+				}
+			}
+		}
+	}
+	return false
+}
+
+func c19ExpRefsCall(exp syntax.Exp, id string) bool {
+	if r, ok := exp.(*syntax.RefExp); ok {
+		return r.Kind == syntax.KindCall && r.Id == id
+	}
+	for _, r := range exp.FindRefs() {
+		if r.Kind == syntax.KindCall && r.Id == id {
+			return true
+		}
+	}
+	return false
+}
+
 // c19Wildcard: the renamed parameter is (or, for a colliding new name, may
 // become) bound by name through a wildcard binding.
 func c19Wildcard(ast *syntax.Ast, e c19Edit) bool {
@@ -486,9 +597,11 @@ func c19Judge(fa c19Files, e c19Edit, top string, roundTrip bool) string {
 		// two families recorded as known findings
 		switch {
 		case strings.Contains(f[1], "_wildcard_"):
-			f[1] = e.Kind + "_wildcard"
+			f[1] = f[1][:strings.Index(f[1], "_wildcard_")+len("_wildcard")]
 		case strings.HasSuffix(f[1], "_map_loses_split"):
 			f[1] = "map_loses_split"
+		case strings.HasPrefix(f[1], "combo_stale_key"):
+			f[1] = "combo_stale_key"
 		}
 		return strings.Join(f, " ")
 	}
@@ -511,13 +624,46 @@ func c19JudgeRaw(fa c19Files, e c19Edit, top string, roundTrip bool) string {
 	if c19Wildcard(astA, e) {
 		tag += "_wildcard"
 	}
+	usedOut := e.Kind == "remove_out" && c19OutputUsed(astA, e.Callable, e.Param, 0)
+	onlyRenames := false
+	c19Pairs = nil
+	if e.Kind == "combo" {
+		// the class names the combination: combo_rename_rename_out ...
+		for _, sub := range e.Subs {
+			tag += "_" + sub.Kind
+		}
+		if c19StaleKey(astA, e) {
+			tag = "combo_stale_key"
+		}
+		// the parts are judged on the original program, under the names the
+		// callables have there
+		onlyRenames = true
+		for _, sub := range e.Subs {
+			orig := sub
+			orig.Callable = e.original(sub.Callable)
+			if c19Wildcard(astA, orig) && !strings.HasSuffix(tag, "_wildcard") {
+				tag = sub.Kind + "_wildcard"
+			}
+			if sub.Kind == "remove_out" && c19OutputUsed(astA, orig.Callable, sub.Param, 0) {
+				usedOut = true
+			}
+			switch sub.Kind {
+			case "rename":
+				c19Pairs = append(c19Pairs, [2]string{sub.Callable, sub.New})
+			case "rename_in", "rename_out":
+				c19Pairs = append(c19Pairs, [2]string{sub.Param, sub.New})
+			default:
+				onlyRenames = false
+			}
+		}
+	}
 	okTag := "ok"
 	if strings.HasSuffix(tag, "_wildcard") {
 		// the oracle cannot see a binding that silently changed to another
 		// value of the same resolved content; the validator can
-		okTag = "ok_wildcard"
+		okTag = "ok_wildcard " + tag
 	}
-	if e.Kind == "remove_out" && c19OutputUsed(astA, e.Callable, e.Param, 0) {
+	if usedOut {
 		// outside the property: a used output cannot be removed without changing
 		// what its consumers see; the edit must still not crash
 		if _, status, detail := c19Apply(fa, e, top); status == "panic" {
@@ -572,6 +718,15 @@ func c19JudgeRaw(fa c19Files, e c19Edit, top string, roundTrip bool) string {
 		return okTag
 	}
 	switch e.Kind {
+	case "combo":
+		// renames only: the call graph up to all of the renamed identifiers;
+		// with a removal part the names of the nodes change as well, and the
+		// composed comparison is left to the Coq validator (check_combo)
+		if onlyRenames {
+			if d := c19SameRenamed(ga, gb, "", "", "$"); d != "" {
+				return fmt.Sprintf("FAIL %s_callgraph combined renames %s: call graph differs beyond the renaming at %s", tag, e.Callable, d)
+			}
+		}
 	case "rename":
 		if d := c19SameRenamed(ga, gb, e.Callable, e.New, "$"); d != "" {
 			return fmt.Sprintf("FAIL %s_callgraph rename %s -> %s: call graph differs beyond the renaming at %s", tag, e.Callable, e.New, d)
@@ -767,6 +922,22 @@ func c19Coq(args []string) {
 		switch {
 		case f[0] == "T":
 			call = fmt.Sprintf("check_roundtrip prog%s after%d", f[1], i)
+		case e.Kind == "combo":
+			var es []string
+			rm := "false"
+			for _, sub := range e.Subs {
+				switch sub.Kind {
+				case "rename":
+					es = append(es, fmt.Sprintf("RenameCallable %s %s", bq(sub.Callable), bq(sub.New)))
+				case "rename_in":
+					es = append(es, fmt.Sprintf("RenameInput %s %s %s", bq(sub.Callable), bq(sub.Param), bq(sub.New)))
+				case "rename_out":
+					es = append(es, fmt.Sprintf("RenameOutput %s %s %s", bq(sub.Callable), bq(sub.Param), bq(sub.New)))
+				default:
+					rm = "true"
+				}
+			}
+			call = fmt.Sprintf("check_combo [%s] %s prog%s after%d", strings.Join(es, "; "), rm, f[1], i)
 		case e.Kind == "rename":
 			call = fmt.Sprintf("check_rename (RenameCallable %s %s) prog%s after%d", bq(e.Callable), bq(e.New), f[1], i)
 		case e.Kind == "rename_in":
